@@ -76,15 +76,13 @@ def containsVersion (b : Book) (v : Nat) : Bool :=
 def seqsAllIn (s : RSet) (r : Nat × Nat) : Bool :=
   (List.range' r.1 (r.2 + 1 - r.1)).all (fun q => s.contains q)
 
-/-- `BookedVersions::contains` -/
+/-- `BookedVersions::contains` (a version held only in part is not known as a whole) -/
 def contains (b : Book) (v : Nat) (seqs : Option (Nat × Nat)) : Bool :=
   containsVersion b v &&
-    (match seqs with
-     | some cs =>
-       (match b.partials.lookup v with
-        | some p => seqsAllIn p.seqs cs
-        | none => true)
-     | none => true)
+    (match seqs, b.partials.lookup v with
+     | some cs, some p => seqsAllIn p.seqs cs
+     | none, some p => p.isComplete
+     | _, none => true)
 
 /-- `BookedVersions::contains_all` -/
 def containsAll (b : Book) (vs : Nat × Nat) (seqs : Option (Nat × Nat)) : Bool :=
@@ -248,16 +246,46 @@ def Node.empty : Node := ⟨Book.empty, Durable.empty⟩
 (cr-sqlite, trusted). -/
 def setDbVersion (d : Option Nat) (v : Nat) : Option Nat := optMax d v
 
-/-- `process_multiple_changes` for complete / empty changesets covering `rs` (in batch order):
-`process_empty_version` when the end is above the head the batch started with (for applied changes
-cr-sqlite moves `crsql_db_versions` itself), then `snapshot()` → `insert_db(collect(rs))` →
-commit → `commit_snapshot`.  An error rolls the transaction back and the snapshot is dropped. -/
-def opInsert (st : Node) (rs : List (Nat × Nat)) : Except DbErr Node :=
-  let max0 := st.book.max
-  let dbv := rs.foldl (fun d r => if optLt max0 r.2 then setDbVersion d r.2 else d) st.db.dbv
+/-- `crsql_db_versions` after the `process_empty_version` calls of one batch: only ends above the
+head the batch started with are written -/
+def dbvAfter (max0 dbv : Option Nat) (rs : List (Nat × Nat)) : Option Nat :=
+  rs.foldl (fun d r => if optLt max0 r.2 then setDbVersion d r.2 else d) dbv
+
+/-- is the row's version covered by one of the ranges -/
+def coveredBy (rs : List (Nat × Nat)) (v : Nat) : Bool := rs.any (fun r => r.1 ≤ v && v ≤ r.2)
+
+/-- `process_multiple_changes` for whole versions (`Changeset::Empty { versions }`, or a complete
+changeset) that passed the `contains_all` guard, in batch order: `process_empty_version` when the
+end is above the head the batch started with (for applied changes cr-sqlite moves
+`crsql_db_versions` itself), `check_buffered_meta_to_clear` → the clear job for those versions
+(run to completion here), `snapshot()` → `insert_db(collect(rs))` → commit → `commit_snapshot`,
+then every partial inside a processed range is dropped from memory.  An error rolls the
+transaction back and the snapshot is dropped. -/
+def wholeVersions (st : Node) (rs : List (Nat × Nat)) : Except DbErr Node :=
   match insertDb st.book st.db.gaps (RSet.ofList rs) with
   | .error e => .error e
-  | .ok (b, rows) => .ok ⟨b, { st.db with gaps := rows, dbv := dbv }⟩
+  | .ok (b, rows) =>
+    .ok ⟨{ b with partials := rs.foldl pmRemoveRange b.partials },
+         { gaps := rows,
+           seqs := st.db.seqs.filter (fun row => !coveredBy rs row.1),
+           dbv := dbvAfter st.book.max st.db.dbv rs }⟩
+
+inductive InsertOutcome
+  | skipped            -- every changeset of the batch was already known
+  | done (st : Node)
+  | failed (e : DbErr) -- transaction rolled back, state unchanged
+deriving Repr, DecidableEq, Inhabited
+
+/-- one batch of whole-version changesets, one per range of `rs`: those already known
+(`contains_all(versions, None)`) are dropped, the rest is processed together.
+(The in-batch `seen` map only drops ranges covered by earlier ranges of the same batch, which
+changes nothing below.) -/
+def opInsert (st : Node) (rs : List (Nat × Nat)) : InsertOutcome :=
+  let processed := rs.filter (fun r => !containsAll st.book r none)
+  if processed.isEmpty then .skipped
+  else match wholeVersions st processed with
+    | .ok st' => .done st'
+    | .error e => .failed e
 
 /-- the WHERE clause of the seq-range merge DELETE in `process_incomplete_version`
 (row `(s, e)`, incoming `(lo, hi)`; SQL integers are signed, so `:start - 1` is `-1` for 0). -/
@@ -294,11 +322,16 @@ inductive PartialOutcome
   | failed (e : DbErr) -- transaction rolled back, state unchanged
 deriving Repr, DecidableEq, Inhabited
 
-/-- `process_multiple_changes` for one incomplete changeset `(v, seqs, last_seq)`:
-the `contains_all` guard, `process_incomplete_version`, `insert_db({v})`, commit,
-`commit_snapshot`, `insert_partial`. -/
+/-- `process_multiple_changes` for one changeset `Full { version: v, changes: [], seqs, last_seq }`:
+the `contains_all` guard; a chunk that spans `0..=last_seq` and carries no changes is complete and
+empty, i.e. handled as a cleared version; otherwise `process_incomplete_version`,
+`insert_db({v})`, commit, `commit_snapshot`, `insert_partial`. -/
 def opPartial (st : Node) (v : Nat) (seqs : Nat × Nat) (last : Nat) : PartialOutcome :=
   if containsAll st.book (v, v) (some seqs) then .skipped
+  else if seqs.1 = 0 ∧ seqs.2 = last then
+    match wholeVersions st [(v, v)] with
+    | .ok st' => .done st'
+    | .error e => .failed e
   else if seqs.2 < seqs.1 then .invalid
   else
     match processIncomplete st.db.seqs v seqs last with
@@ -321,7 +354,7 @@ deriving Repr, DecidableEq, Inhabited
 
 /-- one operation; a failed / skipped operation leaves the state unchanged (rollback) -/
 def step (st : Node) : Op → Node
-  | .ins rs => match opInsert st rs with | .ok st' => st' | .error _ => st
+  | .ins rs => match opInsert st rs with | .done st' => st' | _ => st
   | .part v seqs last => match opPartial st v seqs last with | .done st' => st' | _ => st
   | .reload => opReload st
 
